@@ -149,6 +149,7 @@ func propC09(r *kernel.Run) {
 		n.creds = creds
 		n.gen++
 	}
+	var realDial func(n *cnode, at string)
 	probe := func(at string) {
 		now := time.Now()
 		r.Count("oracle.probes", 1)
@@ -208,9 +209,47 @@ func propC09(r *kernel.Run) {
 			if !named {
 				r.Violate("node-has-valid-chain", "client-config-names-no-stored-root", "no client config of %s prefers a root the server stores at %v", n.name, now.Sub(start))
 			}
+			if tp.Draw(40) == 0 {
+				realDial(n, at)
+			}
 		}
 	}
 
+	// sampled real handshakes: the node's current credentials are put into a node storage and protocol.Dial runs
+	// against the real listener on simnet at the probe instant (second-scale and year-scale lifetimes alike)
+	wire := NewWire(r, w, nil, opts)
+	wire.StartAcceptor("acceptor")
+	wire.Quiesce()
+	realDial = func(n *cnode, at string) {
+		nw := NewWorld(r, fmt.Sprintf("%s-store%d", n.name, r.NextID()), "inmem", false, false)
+		if err := n.creds.Store(nw.Ctx, nw.Storage); err != nil {
+			r.HarnessErr("store node creds: %v", err)
+		}
+		res := wire.DialHonest(fmt.Sprintf("dial%d", r.NextID()), nw, wire.Addr)
+		wire.Quiesce()
+		acc := wire.Take()
+		r.Count("oracle.real_handshakes", 1)
+		authed := false
+		for _, a := range acc {
+			if a.panicMsg != "" {
+				r.Violate("no-panic", "accept-panic/"+a.panicSite, "%s", a.panicMsg)
+			}
+			if a.err == nil && strings.HasPrefix(a.negotiated, nodeenrollment.AuthenticateNodeNextProtoV1Prefix) {
+				authed = true
+			}
+			if a.raw != nil {
+				a.raw.Close()
+			}
+		}
+		if res.err != nil || !authed {
+			r.Violate("node-has-valid-chain", "real-handshake-failed", "%s (generation %d) could not authenticate to its server at %v (%s) although it holds a valid chain of a trusted root: dial error %v, server authenticated=%v", n.name, n.gen, time.Since(start), at, shortErr(res.err), authed)
+		}
+		if res.conn != nil {
+			res.conn.Close()
+		}
+		wire.Quiesce()
+		wire.Take()
+	}
 	rotate()
 	nextRot := start.Add(1 + time.Duration(tp.Int63()%int64(R)))
 	nev := tp.Range(30, 200)
